@@ -327,9 +327,21 @@ func genC02(t *rapid.T) c02Case {
 			}
 		}
 	}
+	caseVariantPair := chance(t, "case-variant-pair", 6)
+	if caseVariantPair {
+		// too short for the shortcut index, texts equal but for the letter case of the client name
+		li := rapid.IntRange(0, nl-1).Draw(t, "cv-list")
+		for _, nm := range []string{"Mom", "mom", "MOM"}[:rapid.IntRange(2, 3).Draw(t, "cv-n")] {
+			m := NetModel{Pat: "||t.co^", CPerm: []Cli{{"name", nm}}}
+			c.Entries = append(c.Entries, c02Entry{Text: "||t.co^$client=" + nm, Model: &m, List: li})
+		}
+	}
 	nq := rapid.IntRange(4, 12).Draw(t, "nreq")
 	for i := 0; i < nq; i++ {
 		q := Q{Host: true, Hostname: pick(t, "qhost", hostsU)}
+		if caseVariantPair && chance(t, "cv-query", 3) {
+			c.Reqs = append(c.Reqs, Q{Host: true, Hostname: "t.co", CName: pick(t, "cv-name", []string{"mom", "Mom", "MOM", "dad"})})
+		}
 		if len(longAliases) > 0 && chance(t, "long-alias", 3) {
 			q.Hostname = pick(t, "alias", longAliases)
 		}
